@@ -4,6 +4,7 @@ import (
 	"context"
 	"math/big"
 	"reflect"
+	"sort"
 	"strconv"
 	"time"
 	"unicode/utf8"
@@ -312,6 +313,9 @@ func (api *API) mapEncodeMap(ctx context.Context, value reflect.Value, ts TypeSe
 		}
 		m.Set(k, v)
 	}
+
+	// Go randomizes the iteration order of maps: sort the members, so that the same value always has the same JSON form
+	m.SortKeys(sort.Strings)
 
 	return m, nil
 }
